@@ -1066,6 +1066,47 @@ def rw_path_canaries(toks, rep, qual, ex=None, unit_ret=False):
     return out
 
 
+CALLPADS: list = []   # unit header `//! callpad: method N <text>`: a call `.method(a1..aN)` with exactly N arguments gets <text> appended
+                      # (the unit's version of the method carries extra ghost arguments; call sites the templates' replaces do not
+                      # know -- e.g. a call a change adds -- are given the neutral ghost values)
+
+
+def rw_callpads(toks, rep):
+    if not CALLPADS:
+        return toks
+    for (meth, n, pad) in CALLPADS:
+        k = 0; cnt = 0
+        while k < len(toks):
+            t = toks[k]
+            if t.kind == IDENT and t.text == meth:
+                pv = _prev_sig(toks, k); nx = _next_sig(toks, k)
+                if pv >= 0 and toks[pv].text == "." and nx < len(toks) and toks[nx].text == "(":
+                    cl = match_close(toks, nx)
+                    # count top-level arguments
+                    args = 0; depth = 0; seen = False
+                    q = nx + 1
+                    while q < cl:
+                        tq = toks[q]
+                        if tq.kind == PUNCT and tq.text in OPEN:
+                            q = match_close(toks, q) + 1; seen = True; continue
+                        if tq.kind == PUNCT and tq.text == ",":
+                            args += 1; seen = False
+                        elif tq.kind not in (WS, COMMENT):
+                            seen = True
+                        q += 1
+                    if seen:
+                        args += 1
+                    if args == n:
+                        lastsig = _prev_sig(toks, cl)
+                        lead = "" if toks[lastsig].text == "," else ","
+                        toks[cl:cl] = [T("raw", lead + " " + pad)]
+                        cnt += 1
+            k += 1
+        if cnt:
+            rep.append(("R7", f"callpad: {cnt} call(s) of `.{meth}()` with {n} arguments padded with `{pad}`"))
+    return toks
+
+
 MUT_BINDINGS: list = []   # unit header `//! mut_bindings: Path::Variant ...`: `Path::Variant(x)` patterns bind `mut x`
 
 
@@ -1498,6 +1539,7 @@ def build(template_text: str, repo: str, unit: str) -> Built:
                 c.text = _mark_hint(c.text)
     mm_ = re.search(r"^//! mut_bindings:\s*(.+)$", template_text, re.M)
     MUT_BINDINGS[:] = mm_.group(1).split() if mm_ else []
+    CALLPADS[:] = [(m3.group(1), int(m3.group(2)), m3.group(3)) for m3 in re.finditer(r"^//! callpad:\s*(\w+)\s+(\d+)\s+(.+)$", template_text, re.M)]
     mb = re.search(r"^//! broadcast_use:\s*(.+)$", template_text, re.M)
     if mb:
         # unit-wide `broadcast use` (e.g. the drop-resolution axioms of the container doubles): appended to the entry
@@ -1994,6 +2036,8 @@ def _build_fn(sf: SourceFile, item: Item, impl, ex: Extract, props, rep, unit, a
             sig_toks = rw_replace(sig_toks, old, new, rep, what="sigreplace", expect=expect)
         elif scope == "replace":
             body_toks = _rw_replace_any(body_toks, old, new, rep, expect)
+    # 3b. calls of ghost-extended methods that the replaces did not reach
+    body_toks = rw_callpads(body_toks, rep)
 
     # 4. R10 desugaring + loop clause splice
     for ordn in sorted(set(list(loop_clauses) + ex.desugar_for), reverse=True):
